@@ -369,11 +369,30 @@ def reachable(backing, root):
     return seen
 
 
-def gen_writes(rng, n, long_pool=None):
-    """n writes and the resulting mapping"""
+def gen_shared_family(rng):
+    """Writes that create two byte-identical HASHED leaves under different branch slots (same remaining path,
+    same >= 32-byte value), a third key keeping the parent branch alive, then removal of one of the pair."""
+    suffix = bytes(rng.choice(ALPHA) for _ in range(rng.randint(0, 2)))
+    firsts = rng.sample([0x00, 0x10, 0x20, 0x01, 0x11], 3)
+    v = bytes([rng.choice(VALBYTES)]) * rng.choice([32, 33, 37, 40, 64])
+    a, b = bytes([firsts[0]]) + suffix, bytes([firsts[1]]) + suffix
+    c = bytes([firsts[2]]) + bytes(rng.choice(ALPHA) for _ in range(rng.randint(0, 2)))
+    ops = [("set", a, v, "meth"), ("set", b, v, "item")]
+    if rng.random() < 0.8:
+        ops.append(("set", c, gen_value(rng), "meth"))
+    rng.shuffle(ops)
+    victim = rng.choice([a, b])
+    ops.append(rng.choice([("del", victim, "meth"), ("del", victim, "item"), ("set", victim, b"", "meth")]))
+    return ops
+
+
+def gen_writes(rng, n, long_pool=None, tiny=False):
+    """n writes and the resulting mapping (tiny: 1..3-byte values only, so that nodes are embedded)"""
     m, ops = {}, []
     for _ in range(n):
         w = gen_write(rng, m.keys(), long_pool)
+        if tiny and w[0] == "set" and w[2] != b"":
+            w = (w[0], w[1], bytes([rng.choice(VALBYTES)]) * rng.randint(1, 3), w[3])
         apply_model(m, w)
         ops.append(w)
     return ops, m
